@@ -279,6 +279,18 @@ def generate(rng, tier, index):
             store[u] = t
             files.append(u)
         rng.shuffle(files)
+        if rng.random() < 0.35:
+            # one file imports a component package, a LATER file uses the
+            # component's section type without importing it: every file is
+            # judged on its own, whatever ran before it on the command line
+            imp = urllib.parse.urljoin(top, "v-imp.conf")
+            use = urllib.parse.urljoin(top, "v-use.conf")
+            store[imp] = "%import zcsim_p0\n" + rng.choice(
+                ["", "<ptx a/>\n"])
+            store[use] = rng.choice(["<ptx b/>\n", "<ptx>\n</ptx>\n",
+                                     "<PTX c/>\n"])
+            files.insert(rng.randint(0, len(files)), imp)
+            files.append(use)
         plan["validator"] = files
     return plan
 
